@@ -1038,6 +1038,7 @@ class mulgrid(object):
                         col2.neighbour.add(c)
                         c.neighbour.add(col2)
                     del col.node[i[3]]
+                    n3.column.remove(col)
                     col.centre = col.centroid
                     col.get_area()
                     self.add_column(col2)
